@@ -360,6 +360,9 @@ class Interp:
             o = self.heap[obj.oid]
             if isinstance(o, Instance):
                 if name in o.attrs:
+                    if name == "data" and o.cls.name == "DataStream" and self.frames and self.frames[-1].finfo is not None \
+                            and self.frames[-1].finfo.cls is not o.cls:
+                        self.event("stream_data_read", (obj, o.attrs[name]), node)
                     return self.simp(o.attrs[name])
                 cv = self.class_attr(o.cls, name)
                 if cv is not None:
@@ -1551,10 +1554,13 @@ class _LoopMixin:
                    [list(t) for t in getattr(f, "try_stack", [])],
                    [(list(c.brk), list(c.cont)) for c in f.loop_stack]) for f in self.frames]
         mods = {k: dict(v) for k, v in self.mod_ns.items()}
-        return (heap, frames, len(self.events), mods, len(self.unknown_calls), len(self.warnings))
+        return (heap, frames, len(self.events), mods, len(self.unknown_calls), len(self.warnings), set(self.loops))
 
     def restore(self, snap):
-        heap, frames, nev, mods, nunk, nwarn = snap
+        heap, frames, nev, mods, nunk, nwarn, loop_ids = snap
+        for lid in list(self.loops):
+            if lid not in loop_ids:
+                del self.loops[lid]
         for oid in list(self.heap):
             if oid not in heap:
                 del self.heap[oid]
@@ -1813,6 +1819,7 @@ class _LoopMixin:
             if final:
                 L.body_guard = self.cur_guard()
             L.body_guard_set = set(self.cur_guard_list(state=True))
+            L.body_guard_full = set(self.cur_guard_list())
             ctl.base_set = L.body_guard_set
             if self.feasible():
                 self.exec_block(st.body)
